@@ -7,7 +7,9 @@ from hypothesis import strategies as st
 
 from vf.core import Violation, close, drive, hash32, must
 from vf.gen import canon as CN
+from vf.gen import mapping as GM
 from vf.gen import spec as G
+from vf.ref import looptree_exec as RX
 
 PROPERTY = "C04"
 LEVEL = "exploration"
@@ -18,7 +20,8 @@ RULE = (
     "E|RESOURCE_USAGE, E|L|RESOURCE_USAGE, EDP). Run A = map_workload_to_arch(eval_in_detail=False) with make_pmappings' "
     "return value captured; for EVERY returned row the harness rebuilds Total<SEP>mapping(_for_model=True) and evaluates it "
     "with evaluate_mapping on a FRESH spec built from the descriptor (no mapper state reused): Total energy / latency / EDP "
-    "and per-memory usage of A must equal the model's. Per Einsum: the constituent pmapping-table row (found by pmapping "
+    "and per-memory usage of A must equal the model's, and the usage must also equal the allocation-log peak of the literal "
+    "executor vf/ref/looptree_exec.py on the returned tree / size (evaluate_mapping shares the joiner's reservation logic). Per Einsum: the constituent pmapping-table row (found by pmapping "
     "object identity and tile-shape columns) must carry the model's per-Einsum energy sum and max component latency, and "
     "the per-Einsum values must add up to A's totals. Run B = map_workload_to_arch(eval_in_detail=True): same multiset of "
     "canonical mapping trees as A, same totals per tree, and every per-Einsum energy/action/latency column of B equals the "
@@ -232,6 +235,19 @@ def check(desc, col):
             col.label("usage_compared")
         for mem, v in ua.items():
             cmp(v, uh.get(mem, 0.0), f"row {i} usage of {mem} (max reservation, eval_in_detail=False)", "total:usage")
+        if ua:
+            # evaluate_mapping joins its per-Einsum pmappings with the same reservation logic as the mapper, so for usage
+            # the independent reference is the allocation-log peak of the literal executor on the returned tree (C06's oracle)
+            einsums_r, bounds_r, comps_r, wl_bits_r = GM.to_ref({"spec": sp})
+            peaks = RX.Executor(einsums_r, bounds_r, comps_r, wl_bits_r).run(CN.exec_tree(trees[i])).peak_bits
+            for node in sp["nodes"]:
+                if node["type"] == "Memory" and node["size"] != "inf" and node["name"] in ua:
+                    want = peaks.get(node["name"], 0) / G.num(node["size"])
+                    if not close(ua[node["name"]], want, rel=1e-5, abs_=1e-6):
+                        raise Violation(f"row {i} usage of {node['name']}: mapper-reported {ua[node['name']]} vs executed peak "
+                                        f"{peaks.get(node['name'], 0)} bits / size {node['size']} = {want}\nmapping: {CN.show(trees[i])}",
+                                        key="total:usage-vs-execution")
+                    col.label("usage_vs_execution_compared")
         # ---- per-Einsum: pmapping-table rows vs the model's per-Einsum sums -----------------
         sums = {}
         ok_all = True
